@@ -240,6 +240,17 @@ func (r *Run) Violate(sig, detail string, c interface{}) {
 		return
 	}
 	r.viol = append(r.viol, Violation{Sig: sig, Detail: detail, Case: c})
+	// a shard that is ended from outside (phase watchdog, fatal signal) never reaches
+	// Finish: what it has found so far must not be lost with it
+	if r.Replay == "" {
+		if b, err := json.Marshal(Result{Property: r.ID, Phase: r.Phase, Tier: r.Tier, Seed: r.Seed, Shard: r.Shard, Shards: r.Shards,
+			Evaluations: atomic.LoadInt64(&r.evals), Violations: r.viol}); err == nil {
+			name := filepath.Join(r.Out, fmt.Sprintf("partial-%s-%d.json", r.Phase, r.Shard))
+			if os.WriteFile(name+".tmp", b, 0o644) == nil {
+				_ = os.Rename(name+".tmp", name)
+			}
+		}
+	}
 }
 
 // Violations returns how many violations have been recorded so far.
@@ -290,6 +301,7 @@ func (r *Run) Finish() {
 		os.Exit(3)
 	}
 	_ = os.Remove(r.curPath)
+	_ = os.Remove(filepath.Join(r.Out, fmt.Sprintf("partial-%s-%d.json", r.Phase, r.Shard)))
 }
 
 // ReplayCase loads the "case" member of a replay file into v.
